@@ -1,0 +1,11 @@
+//go:build verif
+// +build verif
+
+package leanhelixterm
+
+import "github.com/orbs-network/lean-helix-go/services/termincommittee"
+
+// VerifTermInCommittee (build tag "verif") exposes the wrapped TermInCommittee, nil when out of committee.
+func (lht *LeanHelixTerm) VerifTermInCommittee() *termincommittee.TermInCommittee {
+	return lht.termInCommittee
+}
